@@ -51,6 +51,12 @@ struct Step {
     options: Vec<String>,
     include_grammar: bool,
     thread: usize,
+    /// name (and generics) of the struct the derive sits on, e.g. "Parser", "MyGrammar<'a, T>"
+    struct_decl: String,
+    /// inline sources only: the grammar text is handed over in this many `#[grammar_inline]` attributes (split at rule boundaries)
+    pieces: usize,
+    /// option attributes before (false) or after (true) the grammar attributes
+    options_last: bool,
 }
 
 fn sha(s: &str) -> String {
@@ -59,20 +65,59 @@ fn sha(s: &str) -> String {
     h.finalize().iter().map(|b| format!("{b:02x}")).collect()
 }
 
+/// Split a grammar text into `n` pieces at line boundaries that start a rule (concatenated they are the original text).
+fn split_grammar(text: &str, n: usize) -> Vec<String> {
+    let starts: Vec<usize> = text
+        .match_indices('\n')
+        .map(|(i, _)| i + 1)
+        .filter(|i| {
+            let rest = &text[*i..];
+            let first = rest.chars().next();
+            matches!(first, Some(c) if c.is_alphabetic() || c == '_') && rest.lines().next().map(|l| l.contains('=')).unwrap_or(false)
+        })
+        .collect();
+    if n <= 1 || starts.is_empty() {
+        return vec![text.to_string()];
+    }
+    let mut cuts: Vec<usize> = Vec::new();
+    for k in 1..n {
+        let c = starts[(k * starts.len() / n).min(starts.len() - 1)];
+        if !cuts.contains(&c) {
+            cuts.push(c);
+        }
+    }
+    let mut out = Vec::new();
+    let mut prev = 0;
+    for c in cuts {
+        out.push(text[prev..c].to_string());
+        prev = c;
+    }
+    out.push(text[prev..].to_string());
+    out
+}
+
 fn derive_input(step: &Step) -> TokenStream {
-    let mut attrs = TokenStream::new();
+    let mut grammar = TokenStream::new();
     if step.source == "file" {
         let p = Literal::string(&step.path);
-        attrs.extend(quote! { #[grammar = #p] });
+        grammar.extend(quote! { #[grammar = #p] });
     } else {
-        let t = Literal::string(&step.text);
-        attrs.extend(quote! { #[grammar_inline = #t] });
+        for piece in split_grammar(&step.text, step.pieces.max(1)) {
+            let t = Literal::string(&piece);
+            grammar.extend(quote! { #[grammar_inline = #t] });
+        }
     }
+    let mut options = TokenStream::new();
     for o in step.options.iter() {
         let ts: TokenStream = format!("#[{o}]").parse().expect("option attribute");
-        attrs.extend(ts);
+        options.extend(ts);
     }
-    quote! { #attrs struct Parser; }
+    let decl: TokenStream = format!("struct {};", if step.struct_decl.is_empty() { "Parser" } else { step.struct_decl.as_str() }).parse().expect("struct declaration");
+    if step.options_last {
+        quote! { #grammar #options #decl }
+    } else {
+        quote! { #options #grammar #decl }
+    }
 }
 
 thread_local! {
@@ -111,6 +156,9 @@ fn main() {
             options: s["options"].as_array().map(|a| a.iter().filter_map(|x| x.as_str().map(|x| x.to_string())).collect()).unwrap_or_default(),
             include_grammar: s["include_grammar"].as_bool().unwrap_or(false),
             thread: s["thread"].as_u64().unwrap_or(0) as usize,
+            struct_decl: s["struct_decl"].as_str().unwrap_or("Parser").to_string(),
+            pieces: s["pieces"].as_u64().unwrap_or(1) as usize,
+            options_last: s["options_last"].as_bool().unwrap_or(true),
         });
     }
     // seeded heap ballast: shifts every later heap address
@@ -158,7 +206,8 @@ fn main() {
             }
             _ => std::thread::spawn(move || run_step(&st)).join().expect("fresh thread"),
         };
-        let key = json!({"name": step.name, "source": step.source, "options": step.options, "include_grammar": step.include_grammar});
+        let key = json!({"name": step.name, "source": step.source, "options": step.options, "include_grammar": step.include_grammar,
+            "struct_decl": step.struct_decl, "pieces": step.pieces, "options_last": step.options_last});
         let mut w = out.lock();
         match &r {
             Ok(code) => {
